@@ -337,6 +337,11 @@ pub fn fault_alphabet(prop: &str, n: usize, len: usize) -> Vec<(Act, Vec<FaultKi
                     }
                 }
             }
+            // derived iterator methods (an impl may override them) before the leak: every sequence of <= 2 steps over
+            // next / next_back / nth / nth_back (1, 2, usize::MAX) and the short-circuiting consumers
+            for a in crate::explore::steps_probes(n, len, &[6], 2) {
+                v.push((a, vec![]));
+            }
             // a few other bound shapes denoting the same ranges
             v.push((Drain(Rs { sk: 2, a: 0, ek: 2, b: 0 }, Script::all_front(len.min(1)), Fin::Forget), vec![]));
             if len > 0 {
